@@ -20,6 +20,8 @@
 //        n:<name>             lookup by name      -> f<slot>:<key>:<payload> | -
 //        s:<int>              lookup by slot      -> o:<key>:<payload> | -
 //        c                    count               -> <n>
+//        L / U                (kinds t, c) open / close a LockExclusively() scope on this thread -> u
+//                             (registrations inside it exercise the re-entrancy of ReentrantWriteLock)
 //        (payload 99 makes the test type's CopyObject fail after writing its first field)
 //   conc <kind> <nreaders> <names,comma-separated> <w-ops;...> <w-ops;...> ...
 //        real threads (one per writer program, `nreaders` pollers), released together, with yields
@@ -306,6 +308,11 @@ static bool run_seq(std::vector<std::string>& w, std::string* out) {
   if (w.size() < 2 || w[1].size() != 1 || !std::strchr("tcpv", w[1][0])) return false;
   Api api(w[1][0]);
   std::ostringstream os;
+  std::vector<mujoco::ReentrantWriteLock*> locks;   // open LockExclusively() scopes (closed in reverse order)
+  struct Closer {
+    std::vector<mujoco::ReentrantWriteLock*>& l;
+    ~Closer() { while (!l.empty()) { delete l.back(); l.pop_back(); } }
+  } closer{locks};
   for (size_t i = 2; i < w.size(); i++) {
     const std::string& tok = w[i];
     if (i > 2) os << ' ';
@@ -313,6 +320,17 @@ static bool run_seq(std::vector<std::string>& w, std::string* out) {
     int v;
     if (tok == "c") {
       os << api.count();
+    } else if (tok == "L" || tok == "U") {
+      if (api.kind != 't' && api.kind != 'c') return false;
+      if (tok == "L") {
+        // same expression as GlobalTable::LockExclusively(): ReentrantWriteLock(mutex())
+        locks.push_back(api.kind == 't' ? new mujoco::ReentrantWriteLock(Api::T<0>().mutex())
+                                        : new mujoco::ReentrantWriteLock(Api::T<1>().mutex()));
+      } else if (!locks.empty()) {
+        delete locks.back();
+        locks.pop_back();
+      }
+      os << 'u';
     } else if (tok.rfind("r:", 0) == 0) {
       if (!parse_reg(tok, &name, &v)) return false;
       os << regtok(api.reg(name, v));
